@@ -5,6 +5,16 @@ V = os.path.dirname(os.path.dirname(os.path.abspath(__file__)))
 props = [json.loads(l) for l in open(os.path.join(V, "properties.jsonl"))]
 TB = "Trusted: rustc's MIR construction and type checking (nightly 1.97, mir-opt-level=0), the checker's own abstract interpreter / rule code (validated against seeded mutants and benign edits), std collection semantics."
 CLAIMS = {
+ "C15": dict(
+   technique="visit-sequence extraction by abstract interpretation of the walkers' MIR (one generic element per container, recursion as induction hypothesis) compared with a traversal spec; path-existence rule for ControlFlow propagation",
+   text="Static: for each of the 3 filter levels x 5 item/member configurations the sequence of callback invocations of walk_symbols_with_control_flow is extracted from MIR and compared with the pre-order the statement prescribes (array element first); nested types are covered by proving the inductive step of the recursive type visit; for every callback invocation a path must exist on which its Break ends the walk (dropped results are reported); walk_symbols / filter_symbols / find_symbol are interpreted end to end with an opaque predicate (all predicate valuations enumerated); walk_types / walk_methods / walk_args sequences likewise.",
+   note=TB + " Assumes std iterator semantics (forward, once per element, try_for_each short-circuits).",
+   design="DESIGN.md section 4, C15"),
+ "C16": dict(
+   technique="path enumeration of range_contains over all 81 order types of its comparisons; per-variant table of Symbol::get_range; lookup-shape rule; C15 traversal rules re-evaluated",
+   text="Static, exhaustive: range_contains touches its six integers only through comparisons (checked on the extracted branch literals), so its boolean function is compared with inclusive lexicographic containment over all 81 order types; find_symbol_at_line_col is shown to be find_symbol with that predicate on Symbol::get_range, which is tabulated over all 11 Symbol variants to be the name range; 'first such symbol in traversal order, package included, any depth' is C15's walker and propagation rules, re-run under this property.",
+   note=TB + " Not decided: line/column arithmetic inside the line-col crate; exactness of the name range is C04.",
+   design="DESIGN.md section 4, C16"),
  "C08": dict(
    technique="abstract interpretation of MIR: element decision tables (4 x 17 cells) and container dispatch vs spec tables; visit-sequence extraction of the type walker with an inductive depth argument",
    text="Static, exhaustive over categories: the four element checkers are tabulated from MIR for all 17 type categories (68 cells: exactly one Error on the element for a rejected one, nothing for an accepted one) and check_container's dispatch over kind x arity; the claim 'every container anywhere, at any depth' is decided by extracting the visit sequence of traverse::walk_types for every item/member configuration (every type-bearing field of the AST ADTs must appear) and proving the inductive step of its recursive helper (visit t, recurse on each generic parameter).",
